@@ -10,4 +10,4 @@ for p in "$@"; do
   out=$(VERIF_REPO=$scratch ./check $p $tier 2>&1); rc=$?
   echo "$(basename $(dirname $patchf))/$(basename $patchf) $p rc=$rc $(echo "$out" | grep -m2 'signature=\|INCONCLUSIVE' | sed 's/^ *//' | cut -c1-200 | tr '\n' '|')"
 done
-rm -rf $scratch
+rm -rf $scratch; rm -f .build/*.$(echo "$scratch" | md5sum | cut -c1-8)*
